@@ -3,7 +3,7 @@ import ast
 
 from . import alg
 from .alg import Poly, P, B, C, sym, mk_fn
-from .interp import Interp, Hooks, Arr, Obj, Unk, GenList, Pinned, symarr, scalar, num, unit_atom, ClassRef
+from .interp import Interp, Hooks, Arr, Obj, Unk, GenList, Pinned, SymTable, symarr, scalar, num, unit_atom, ClassRef
 from .astutil import up
 
 M, A, N, F = 'm', 'a', 'n', 'f'
@@ -51,8 +51,10 @@ class ConvHooks(Hooks):
             return args[1] if len(args) > 1 else kwargs.get('value')
         if q.endswith('parfile:read'):
             return {'version': 1}
-        if q.endswith(':load_parameter_table'):
-            return {'MODEL_NAME': symarr('pnames', (M,))}
+        if q.endswith(':read_table'):
+            # the parameter file as it is stored; load_parameter_table itself is interpreted, so anything it does to the table (its row order is what the
+            # convolved files follow) is seen
+            return SymTable({'MODEL_NAME': symarr('pnames', (M,))}, M)
         if q.endswith(':SED.read'):
             self.sed_read_kwargs.append(dict(kwargs))
             hidden = (M,) if _inside_loop(interp, node) else ()      # one SED per iteration of the model loop
